@@ -14,6 +14,15 @@ Seeded C14_F (`_require` concatenates repr(token) into a %-format string) was mi
      of ignorable atoms only that contains `%` (TypeError / ValueError escape, check_query raises)
   b  the tokenizer regex caps an atom at 4096 characters (`[^()\\s"]{1,4096}`) - needs an atom longer than that
      (it becomes two atoms: another tree)
+
+One long-lived parser (builder wt_strong7): 12% of the cases drive ONE QueryParser instance through 4-10 queries
+(`pparse`; parseQueryEx / parseQuery + getIgnored alternate), keep every returned tree and ignored list as the
+objects they are, and after every later parse - successful, failing, or the same query once more - read all of
+them again (`held`) against the model's answers (parses are values there).  45% of these queries are grammar
+queries with 1-3 stop-word terms inserted (non-empty ignored list), 10% only stop words, 10% error positions.
+  seeded C14_H  parseQuery clears and refills one `_ignored` list in place                 MISSED before, now caught
+  M14c  parseQuery memoises the tree per query string on the instance; on a cache hit the ignored list is the
+        one of the previous, different query                                                             caught
 """
 import re
 import sys
@@ -45,7 +54,10 @@ RULE = ("each case = 8 query strings x (parse, check, exec) against QueryParser(
         "{AND OR NOT ( ) foo -bar the \"x y\" q*} and every string of length <= 5 (thorough 7) over "
         "{( ) \" - a U+3000}; 11% of all atoms are weird atoms (fragment alone / word+fragment / punctuation "
         "run / two fragments / fragment+glob / 3%: one of 10 units repeated 200-20000 times), 5% quoted strings "
-        "with control characters (a quarter glued to a neighbour). Measured quick seed 0 (51200 generated queries): "
+        "with control characters (a quarter glued to a neighbour); 12% of the cases: one QueryParser instance for "
+        "4-10 queries in a row (pparse), all trees and ignored lists handed out so far re-read after every later "
+        "parse (held) - quick seed 0: 750 such sessions, 951 successful and 1691 failing later parses while a "
+        "non-empty ignored list of an earlier query was held, 752 repeated queries. Measured quick seed 0 (51200 generated queries): "
         "tokens containing % 14921, containing { \\ or $ 16059, tokens >= 200 chars 1231, quoted strings with a "
         "control / Unicode-space character 8495 (newline 712, NUL 436); ParseErrors reported AT an atom 1612 "
         "(required-EOF 839, required-) 773), of which the atom has % 296, { 128, backslash 133, NUL 53, a control "
